@@ -483,6 +483,9 @@ pub fn run_main(args: &[String]) -> i32 {
         wall,
         if inconclusive.is_empty() { String::new() } else { format!(", INCONCLUSIVE: {:?}", inconclusive) }
     );
+    if !violation_lines.is_empty() {
+        exit_code = 1;
+    }
     if exit_code == 0 && !inconclusive.is_empty() {
         return 2;
     }
